@@ -109,8 +109,8 @@ def facts_dir(config, th=None):
 
 def _prune(keep_hash):
     root = os.path.join(WORK, "facts")
-    if not os.path.isdir(root):
-        return
+    if not os.path.isdir(root) or os.environ.get("VERIF_NO_PRUNE"):
+        return          # (VERIF_NO_PRUNE: machinery self-tests that analyse several scratch trees at once)
     for d in os.listdir(root):
         if d != keep_hash:
             shutil.rmtree(os.path.join(root, d), ignore_errors=True)
